@@ -96,6 +96,19 @@ def token_provenance(chk, fx, path, where, token_enum):
                 detail += "; None does not lead to an Invalid*Length error"
         chk.expect(ok, "length-provenance", where, f"{kind_}@arm{arm[2]}", "length sanitised (or undefined) before emission; None => Invalid*Length error",
                    detail, loc=f"{h['loc']['f']}:{n[1]}")
+        # the header remembered for the value step (self.last_header) must be the header that the token reports, with the sanitised
+        # length stored in it: the value is later consumed with last_header.len
+        if kind_ == "ElementHeader" and not guard_undef and san:
+            tok_arg = H.show(H.call_args(n)[0], 4) if H.call_args(n) else None
+            saved = [x for x in H.walk(b) if H.kind(x) == "assign" and H.show(x[2], 3) == "self.last_header"]
+            saved_arg = None
+            if saved:
+                sv = H.peel(saved[-1][3])
+                saved_arg = H.show(H.call_args(sv)[0], 4) if H.kind(sv) == "call" and H.call_args(sv) else H.show(sv, 4)
+            len_set = [x for x in H.walk(b) if H.kind(x) == "assign" and tok_arg is not None and H.show(x[2], 3) == f"{tok_arg}.len" and x[1] <= (saved[-1][1] if saved else n[1])]
+            ok_h = tok_arg is not None and saved_arg == tok_arg and len(len_set) >= 1
+            chk.expect(ok_h, "length-provenance", where, f"{kind_}@arm{arm[2]}/saved-header", "header.len = <sanitised>; self.last_header = Some(header); token carries the same header",
+                       {"token": tok_arg, "saved": saved_arg, "len_assigned": len(len_set)}, loc=f"{h['loc']['f']}:{n[1]}")
         # the delimiter record pushed in the same arm must carry the very length that the token reports (the sanitised one):
         # a record with the raw length ends the item one byte early under NextEven
         if kind_ in ("ItemStart", "SequenceStart"):
